@@ -600,21 +600,27 @@ func (this *BWT) inverseBiPSIv2Task(dst []byte, buckets []int, fastBits []uint16
 				}
 
 				dst0[i-1] = byte(s0 >> 8)
-				dst0[i] = byte(s0)
 				dst1[i-1] = byte(s1 >> 8)
-				dst1[i] = byte(s1)
 				dst2[i-1] = byte(s2 >> 8)
-				dst2[i] = byte(s2)
 				dst3[i-1] = byte(s3 >> 8)
-				dst3[i] = byte(s3)
 				dst4[i-1] = byte(s4 >> 8)
-				dst4[i] = byte(s4)
 				dst5[i-1] = byte(s5 >> 8)
-				dst5[i] = byte(s5)
 				dst6[i-1] = byte(s6 >> 8)
-				dst6[i] = byte(s6)
 				dst7[i-1] = byte(s7 >> 8)
-				dst7[i] = byte(s7)
+
+				if i < end {
+					// With an odd chunk size the second symbol of the last
+					// pair belongs to the next chunk (or lies past the block)
+					dst0[i] = byte(s0)
+					dst1[i] = byte(s1)
+					dst2[i] = byte(s2)
+					dst3[i] = byte(s3)
+					dst4[i] = byte(s4)
+					dst5[i] = byte(s5)
+					dst6[i] = byte(s6)
+					dst7[i] = byte(s7)
+				}
+
 				p0 = int(data[p0])
 				p1 = int(data[p1])
 				p2 = int(data[p2])
@@ -642,7 +648,13 @@ func (this *BWT) inverseBiPSIv2Task(dst []byte, buckets []int, fastBits []uint16
 			}
 
 			dst[i-1] = byte(s >> 8)
-			dst[i] = byte(s)
+
+			if i < end || end == total-1 {
+				// With an odd chunk size the second symbol of the last pair is
+				// the first symbol of the next chunk, written by its own task
+				dst[i] = byte(s)
+			}
+
 			p = int(data[p])
 		}
 
